@@ -315,10 +315,52 @@ def compare(ref, out):
     return bad, {"elements": ntot, "bitwise_equal": nbit, "max_rel_diff": maxrel}
 
 
+class _LibProxy:
+    """what `from pyscf import lib` is for the modules of the package under test: everything
+    is PySCF's, except that the number of threads the environment announces / the caller sets
+    is the simulated runtime's (Python code of the package that sizes buffers or picks a
+    routine from the thread count must see the team the C code will get).  PySCF's own
+    modules keep the real function (their C code runs on one real thread)."""
+
+    def __init__(self, real):
+        self.__dict__["_real"] = real
+
+    def __getattr__(self, k):
+        return getattr(self._real, k)
+
+    def __setattr__(self, k, v):
+        setattr(self._real, k, v)
+
+    def num_threads(self, n=None):
+        if n is not None:
+            _sim.lib.omp_set_num_threads(int(n))
+            return int(n)
+        return int(_sim.lib.omp_get_max_threads())
+
+
+def _route_thread_count_queries():
+    import pyscf.lib
+
+    n = 0
+    for name, mod in list(sys.modules.items()):
+        if mod is None or not (name == "ciderpress" or name.startswith("ciderpress.")):
+            continue
+        d = getattr(mod, "__dict__", {})
+        for k_, v_ in list(d.items()):  # (under whatever name the module imported it)
+            if v_ is pyscf.lib or v_ is pyscf.lib.misc:
+                d[k_] = _LibProxy(v_)
+                n += 1
+            elif v_ is pyscf.lib.num_threads:
+                d[k_] = _LibProxy(pyscf.lib).num_threads
+                n += 1
+    return n
+
+
 def run_workload(wl, wp, sched, record=False, replay=None):
     from cidersim.workloads import omp_workloads as W
 
     fn = W.WORKLOADS[wl][1]
+    _route_thread_count_queries()
     _sim.begin(
         sched["sseed"],
         nthreads=sched["nthreads"],
